@@ -250,9 +250,13 @@ Definition crit (u : universe) (gid : nat) (x : flt) : bool :=
 Definition matched (u : universe) (filters : list flt) (gid : nat) (g c : opts) : list flt :=
   filter (crit u gid) (map (fun x => enrich x g c) filters).
 
-(* the planning state the recursion works on: Engine.feature_group_collection (all groups), Engine.links,
-   GlobalFilter.collection *)
-Record rst := { r_stored : list pfeat; r_links : list link; r_coll : fcoll }.
+(* the planning state the recursion works on: Engine.feature_group_collection (all groups), and -- because the recursion
+   only ever ADDS to Engine.links (self.links.add) and to GlobalFilter.collection (add_filter_to_collection) and never
+   reads them (groups without index_columns) -- the sequences of those add calls, applied to the two objects afterwards *)
+Record rst := { r_stored : list pfeat; r_ladds : list link; r_fadds : list (key * flt) }.
+Definition apply_links (L : list link) (log : list link) : list link := fold_left link_add log L.
+Definition apply_coll (C : fcoll) (log : list (key * flt)) : fcoll :=
+  fold_left (fun c kx => coll_add c (fst kx) (snd kx)) log C.
 
 (* _add_filter_feature(group, feature): every matched filter is recorded under (group, feature.name) and its filter
    feature is stored (add_feature_to_collection: only if no equal feature is stored yet) *)
@@ -261,7 +265,7 @@ Definition add_filter_feature (u : universe) (filters : list flt) (st : rst) (gi
     let ff := {| pf_gid := gid; pf_name := ft_name x; pf_g := ft_opts x; pf_c := []; pf_link := None;
                  pf_dtype := None; pf_child := None |} in
     {| r_stored := if stored_in ff (r_stored st) then r_stored st else r_stored st ++ [ff];
-       r_links := r_links st; r_coll := coll_add (r_coll st) (gid, n) x |})
+       r_ladds := r_ladds st; r_fadds := r_fadds st ++ [((gid, n), x)] |})
     (matched u filters gid g c) st.
 
 (* Engine._process_feature on a feature value: resolve the group; add_feature_to_collection -- only a feature that is
@@ -288,8 +292,8 @@ Fixpoint proc (u : universe) (use_filter : bool) (filters : list flt) (fuel : na
                                       end)
                        (gi_inputs gi)
                        (Some {| r_stored := r_stored st ++ [p];
-                                r_links := match l with Some x => link_add (r_links st) x | None => r_links st end;
-                                r_coll := r_coll st |}) in
+                                r_ladds := match l with Some x => r_ladds st ++ [x] | None => r_ladds st end;
+                                r_fadds := r_fadds st |}) in
       match st1 with
       | None => None
       | Some s1 => Some (if use_filter then add_filter_feature u filters s1 (gi_id gi) n g c else s1)
@@ -328,8 +332,6 @@ Fixpoint attach (c : fcoll) (stored reps : list pfeat) : option (list (nat * opt
 
 (* ---------------------------------------------------------------- phase 2: Engine ---- *)
 Record pst := { p_heap : heap; p_r : rst }.
-Definition p_links (s : pst) := r_links (p_r s).
-Definition p_coll (s : pst) := r_coll (p_r s).
 Definition p_stored (s : pst) := r_stored (p_r s).
 
 Definition cfw_check (f : fobj) (gi : ginfo) : perr + option (list nat) :=
@@ -389,35 +391,46 @@ Fixpoint phase2 (u : universe) (fuel : nat) (use_filter : bool) (filters : list 
   end.
 
 (* ---------------------------------------------------------------- mlodaAPI.prepare ---- *)
-Definition plan_call (u : universe) (fuel : nat) (w : world) (c : call) : world * outcome :=
-  let nF := List.length (hF w) in let nO := List.length (hO w) in
+Definition rst0 : rst := {| r_stored := []; r_ladds := []; r_fadds := [] |}.
+
+(* the traversal of a call: a function of the universe, the filters and the (working) heap only *)
+Definition traverse (u : universe) (fuel : nat) (w : world) (c : call) : heap * (perr + (pst * option perr)) :=
+  let nF := List.length (hF w) in
   let h0 : heap := if c_copy c then deepcopy_heap (hF w) (hO w) else (hF w, hO w) in
   let addrs := if c_copy c then map (fun a => a + nF) (c_feats c) else c_feats c in
+  match phase1 (c_api c) (c_strict c) h0 addrs with
+  | (h1, Some e) => (h1, inl e)
+  | (h1, None) => (h1, inr (phase2 u fuel (c_filter c) (w_filters w) {| p_heap := h1; p_r := rst0 |} addrs))
+  end.
+
+Definition filter_outcome (use_filter : bool) (C : fcoll) (stored : list pfeat) (links : list link) : outcome :=
+  if use_filter then
+    match attach C stored (step_reps stored []) with
+    | Some steps => Accepted steps links
+    | None => Failed ERejected
+    end
+  else Accepted (map (fun r => (pf_gid r, pf_g r, [])) (step_reps stored [])) links.
+
+Definition plan_call (u : universe) (fuel : nat) (w : world) (c : call) : world * outcome :=
+  let nF := List.length (hF w) in let nO := List.length (hO w) in
   let back (h : heap) (L : list link) (C : fcoll) : world :=
     {| hF := firstn nF (fst h); hO := firstn nO (snd h);
        w_links := if c_links c then L else w_links w; w_filters := w_filters w;
        w_coll := if c_filter c then C else w_coll w |} in
-  match phase1 (c_api c) (c_strict c) h0 addrs with
-  | (h1, Some e) => (back h1 (w_links w) (w_coll w), Failed e)
-  | (h1, None) =>
+  match traverse u fuel w c with
+  | (h1, inl e) => (back h1 (w_links w) (w_coll w), Failed e)
+  | (h1, inr (st, e)) =>
     if c_links c && negb (validate_links (w_links w)) then (back h1 (w_links w) (w_coll w), Failed ELinks)
     else
-      let st0 := {| p_heap := h1; p_r := {| r_stored := []; r_links := if c_links c then w_links w else []; r_coll := w_coll w |} |} in
-      match phase2 u fuel (c_filter c) (w_filters w) st0 addrs with
-      | (st, Some e) => (back (p_heap st) (p_links st) (p_coll st), Failed e)
-      | (st, None) =>
-        (back (p_heap st) (p_links st) (p_coll st),
-         if c_filter c then
-           match attach (p_coll st) (p_stored st) (step_reps (p_stored st) []) with
-           | Some steps => Accepted steps (p_links st)
-           | None => Failed ERejected
-           end
-         else Accepted (map (fun r => (pf_gid r, pf_g r, [])) (step_reps (p_stored st) [])) (p_links st))
-      end
+      (* Engine.links is the caller's set (or a private one when links=None); the collection is the caller's *)
+      let L := apply_links (if c_links c then w_links w else []) (r_ladds (p_r st)) in
+      let C := apply_coll (w_coll w) (r_fadds (p_r st)) in
+      (back (p_heap st) L C,
+       match e with
+       | Some e => Failed e
+       | None => filter_outcome (c_filter c) C (p_stored st) L
+       end)
   end.
-
-(* a fresh call: the same call on the pristine world *)
-Definition step_w (u : universe) (fuel : nat) (w : world) (c : call) : world * outcome := plan_call u fuel w c.
 
 (* outcomes are compared as Python compares them: sets of filters, sets of links, steps in any order *)
 Definition steps_sub (a b : list (nat * opts * list flt)) : bool :=
@@ -437,25 +450,26 @@ Definition outcome_eqb (a b : outcome) : bool :=
   end.
 
 (* ---------------------------------------------------------------- known-defect domains (decidable) ---- *)
-(* kf_filter: the shared collection holds, at call entry, under a key (g, n) an entry the call itself does not produce
-   for that key, and the call touches group g with a feature named n. *)
-Definition call_products (u : universe) (fuel : nat) (w : world) (c : call) : fcoll * list pfeat :=
-  (* what the call would write into an EMPTY collection, and the features it stores *)
-  let w0 := {| hF := hF w; hO := hO w; w_links := w_links w; w_filters := w_filters w; w_coll := [] |} in
-  let nF := List.length (hF w) in
-  let h0 : heap := if c_copy c then deepcopy_heap (hF w) (hO w) else (hF w, hO w) in
-  let addrs := if c_copy c then map (fun a => a + nF) (c_feats c) else c_feats c in
-  match phase1 (c_api c) (c_strict c) h0 addrs with
-  | (h1, Some _) => ([], [])
-  | (h1, None) =>
-    let st0 := {| p_heap := h1; p_r := {| r_stored := []; r_links := if c_links c then w_links w else []; r_coll := [] |} |} in
-    let st := fst (phase2 u fuel (c_filter c) (w_filters w) st0 addrs) in (p_coll st, p_stored st)
+(* what the call records in a collection and the features it stores *)
+Definition call_products (u : universe) (fuel : nat) (w : world) (c : call) : list (key * flt) * list pfeat :=
+  match traverse u fuel w c with
+  | (_, inr (st, _)) => (r_fadds (p_r st), p_stored st)
+  | (_, inl _) => ([], [])
   end.
+Definition touches (stored : list pfeat) (k : key) : bool :=
+  existsb (fun p => Nat.eqb (pf_gid p) (fst k) && String.eqb (pf_name p) (snd k)) stored.
+
+(* kf_filter_touched: the shared collection holds, at call entry, an entry under a key (g, n) such that the call stores a
+   feature named n in group g.  (filter_reuse_partial is proved outside this domain.) *)
+Definition kf_filter_touched (u : universe) (fuel : nat) (w : world) (c : call) : bool :=
+  c_filter c && existsb (fun kv => touches (snd (call_products u fuel w c)) (fst kv)) (w_coll w).
+
+(* kf_filter (narrower; what the harness attributes to the known finding): ... and that entry holds a filter the call
+   itself does not record under that key. *)
 Definition kf_filter (u : universe) (fuel : nat) (w : world) (c : call) : bool :=
   c_filter c &&
-  let (fresh, stored) := call_products u fuel w c in
-  existsb (fun kv => existsb (fun p => Nat.eqb (pf_gid p) (fst (fst kv)) && String.eqb (pf_name p) (snd (fst kv))) stored
-                     && negb (fset_sub (snd kv) (coll_get fresh (fst kv)))) (w_coll w).
+  let (adds, stored) := call_products u fuel w c in
+  existsb (fun kv => touches stored (fst kv) && negb (fset_sub (snd kv) (coll_get (apply_coll [] adds) (fst kv)))) (w_coll w).
 
 (* kf_links: the shared set holds a link that the pristine set did not hold *)
 Definition kf_links (w0 w : world) (c : call) : bool := c_links c && negb (links_sub (w_links w) (w_links w0)).
